@@ -33,7 +33,7 @@ def inverse_truncated_modal(M, num_modes, svd=None):
     S = S[:num_modes]
     Vt = Vt[:num_modes, :]
 
-    return (Vt.T / S).dot(U.T)
+    return (Vt.conj().T / S).dot(U.conj().T)
 
 def inverse_truncated(M, rcond=1e-15, svd=None):
     '''Invert `M` truncating the number of modes.
@@ -66,7 +66,7 @@ def inverse_truncated(M, rcond=1e-15, svd=None):
     U, S, Vt = svd.svd
     S_inv = np.array([1 / s if abs(s) > (rcond * S.max()) else 0 for s in S])
 
-    return (Vt.T * S_inv).dot(U.T)
+    return (Vt.conj().T * S_inv).dot(U.conj().T)
 
 def inverse_tikhonov(M, rcond=1e-15, svd=None):
     '''Invert `M` using Tikhonov regularization.
@@ -97,4 +97,4 @@ def inverse_tikhonov(M, rcond=1e-15, svd=None):
     U, S, Vt = svd.svd
     S_inv = S / (S**2 + (rcond * S.max())**2)
 
-    return (Vt.T * S_inv).dot(U.T)
+    return (Vt.conj().T * S_inv).dot(U.conj().T)
